@@ -12,8 +12,8 @@ from ..probes import quiet, scratch
 from ..parallel import supervised, read_samples
 from .. import partools
 
-TRUSTED_EXTRA = ["C12: the theorem covers every interleaving of the *model* (processes with FIFO channels, non-blocking sends); OS pipes are assumed reliable FIFO; real "
-                 "scheduling is only perturbed by scripted delays in the pipe endpoints",
+TRUSTED_EXTRA = ["C12: the theorem covers every interleaving of the *model* (processes with FIFO channels of every capacity, from rendezvous to unbounded); OS pipes are "
+                 "assumed reliable FIFO; real scheduling is only perturbed by scripted delays in the pipe endpoints and by runs with models larger than the pipe buffer",
                  "C12: kernels, targets and the masters' uniform draws are parameters of the choreography"]
 ASSUMPTIONS = ["chains are started with fork; logging pipe endpoints and tapped sampler subclasses do not change the protocol (checked: runs with and without delays give identical files)"]
 
@@ -64,6 +64,62 @@ def job(cfg, tmp, sleep_seed, sleep_scale):
         p = os.path.join(tmp, f"tap_{i}.pkl")
         out["taps"].append(pickle.load(open(p, "rb")) if os.path.exists(p) else None)
     return out
+
+
+def big_job(n, d, P, I, seeds, tmp):
+    """plain (untapped) tempering run whose models do not fit into the pipe buffer"""
+    S, D = _hm()
+    samplers = [S.RWMH(seed=sd) for sd in seeds]
+    posts = [D.Normal(np.zeros((d, 1)), float(1 + i)) for i in range(n)]
+    files = [os.path.join(tmp, f"big_{i}.h5") for i in range(n)]
+    ctrl = S.ParallelSampleSMP(seed=seeds[0] + 1)
+    ctrl.sample(samplers, files, posts, overwrite_existing_files=True, proposals=P, exchange=True, exchange_interval=I,
+                initial_model=np.zeros((d, 1)), kwargs={"disable_progressbar": True, "stepsize": 0.01})
+    shapes = []
+    for f in files:
+        a = read_samples(f)
+        shapes.append(list(a.shape))
+    return {"shapes": shapes}
+
+
+def pipe_buffer_bytes():
+    try:
+        return int(open("/proc/sys/net/core/wmem_default").read())
+    except Exception:
+        return 212992
+
+
+def capacity_suite(rnd, count, findings):
+    sc = Suite("C12.capacity", "real tempering runs whose models are larger than the operating system's pipe buffer (a send then completes only while the "
+               "partner receives: the capacity-0 end of the theorem's quantifier), 2-3 chains, exchange at every proposal: completion within the time limit and "
+               "`proposals` columns per chain; non-trivial = all")
+    buf = pipe_buffer_bytes()
+    with scratch() as tmp:
+        for ci in range(count):
+            n = rnd.choice([2, 2, 3])
+            d = int(max(40000, 3 * buf // 8) * rnd.choice([1.0, 1.5]))
+            P, I = rnd.choice([(2, 1), (3, 1), (4, 2)])
+            seeds = [rnd.randrange(1 << 30) for _ in range(n)]
+            sub = os.path.join(tmp, f"b{ci}")
+            os.makedirs(sub)
+            stim = {"n": n, "dimensions": d, "P": P, "I": I, "message_bytes": 8 * d, "pipe_buffer_bytes": buf}
+            status, res = supervised(big_job, (n, d, P, I, seeds, sub), timeout=75, tmpdir=tmp)
+            sc.case(dict(stim, seeds=seeds), nontrivial=True, sample=stim if len(sc.samples) < 2 else None)
+            sc.count(f"n={n}")
+            if status == "timeout":
+                sc.disagree(stim, "completes", res, "did not finish (deadlock?)")
+                findings.append(Finding("C12", f"parallel tempering with models of {8 * d} bytes (pipe buffer {buf}) and n={n}, P={P}, I={I} did not finish: "
+                                        f"{res.get('alive_processes')} processes alive in {[p.get('wchan') for p in res.get('processes', [])[:4]]}",
+                                        {"kind": "hang", "large_model": True}, {"oracle": "timeout", "config": dict(stim, seeds=seeds), "diagnostic": res}))
+            elif status == "raised":
+                sc.disagree(stim, "completes", res[:300], "raised")
+                findings.append(Finding("C12", f"parallel tempering with large models raised: {res[:200]}", {"kind": "raise", "large_model": True},
+                                        {"oracle": "raise", "config": dict(stim, seeds=seeds), "error": res}))
+            elif any(sh != [d + 1, P] for sh in res["shapes"]):
+                sc.disagree(stim, [d + 1, P], res["shapes"], "columns per chain")
+                findings.append(Finding("C12", f"large-model run wrote shapes {res['shapes']}, expected {[d + 1, P]} per chain", {"kind": "columns", "large_model": True},
+                                        {"oracle": "shape", "config": dict(stim, seeds=seeds)}))
+    return sc
 
 
 def misfit_of(cfg, i, m):
@@ -200,11 +256,15 @@ def run(tier, seed):
             continue
         if not (common.vbits(ms, col_s[:-1]) and common.vbits(mm, col_m[:-1]) and common.close(xs, col_s[-1], 1e-12, 1e-12) and common.close(xm, col_m[-1], 1e-12, 1e-12)):
             sx.disagree(stim, {"slave": ms + [xs], "master": mm + [xm]}, {"slave": col_s.tolist(), "master": col_m.tolist()}, "states after the exchange differ from the model")
-    return [st, sx], findings
+    sc = capacity_suite(rnd, 6 if thorough else 2, findings)
+    return [st, sx, sc], findings
 
 
 def search(tier, seed, broken):
-    return []
+    """after a broken proof/correspondence: look for a run that does not finish, at both ends of the capacity range"""
+    findings = []
+    capacity_suite(random.Random(seed + 4242), 3, findings)
+    return findings
 
 
 def replay(body):
